@@ -62,7 +62,9 @@ Definition runs_bd7 (cls0 : list bclass) (xlev : list (option nat)) (oc : list b
   forallb (fun r => forallb (fun i => match nth i xlev None with
                                       | Some l => l =? nth (fst r) lv 0
                                       | None => false end)
-                            (filter (live oc) (run_range r))) runs.
+                            (filter (live oc) (run_range r))) runs &&
+  (* only the first run can start at a removed character *)
+  forallb (fun r => live oc (fst r)) (tl runs).
 
 (* ---- BD13 / X10: the model's sequences against the specification's ---- *)
 Definition seq3 := (list nat * bclass * bclass)%type.
@@ -96,11 +98,14 @@ Fixpoint stage_check_seqs (ds : datasource) (cps : list N) (oc : list bclass) (l
   | [] => inr pc
   | sq :: rest =>
     if negb (bn_exact oc pc sq) then inl 10 else
+    if negb (forallb not_removed_by_x9 (at_ BN pc (live_idx oc sq))) then inl 16 else
     match resolve_weak U32 cps sq pc with
     | Panic _ => inl 11
     | Ok pc1 =>
       if negb (cls_list_eqb (at_ BN pc1 (live_idx oc sq)) (sq_weak_spec oc pc sq)) then inl 12 else
       if negb (transparent oc pc1 sq) then inl 13 else
+      if negb (forallb (fun c => is_ni c || match strong_dir c with Some _ => true | None => false end)
+                       (at_ BN pc1 (live_idx oc sq))) then inl 17 else
       match resolve_neutral U32 ds cps sq lv oc pc1 with
       | Panic _ => inl 14
       | Ok pc2 =>
